@@ -17,6 +17,17 @@ func vfH_Policy_Add() {
 		preCost = vfIteI64(keys[i] == key, costs[i], preCost)
 	}
 	est := func(k uint64) int64 { return vfEstUF(nil, k) }
+	if vfParam("unit", 0) == 1 {
+		// a newcomer that needs every resident as a victim (more victims than one sample holds):
+		// unit costs, a full cache, a newcomer as large as the cache and hotter than every resident;
+		// one enumeration order of the sampling map
+		vfSet("map-order-fork", 0)
+		vfAssume(preMax == int64(n) && cost == int64(n) && !resident)
+		for i := range keys {
+			vfAssume(costs[i] == 1 && est(keys[i]) == 1)
+		}
+		vfAssume(est(key) == 2)
+	}
 	vfBegin()
 	victims, added := p.Add(key, cost)
 
